@@ -361,20 +361,25 @@ let () =
            (* C03's monitor is a statement about the true sizes of the entries, not about the bookkeeping: it is evaluated all the
               same when the only thing wrong with the state before is the bookkeeping of sizes (recorded sizes that lag behind
               the entries, a counter that is off) — an eviction that takes more than was needed is a violation whatever misled it *)
-           (match parse_op rest with
-            | Plain (p, _, _) when not tainted.(slot) && post.res <> "panic" && inject = None && c04_nodup_mon pre.st && c04_nodup_mon post.st
-                                   && (match pre.graph with Some g -> ri_check g | None -> true)
-                                   && (match post.graph with Some g -> ri_check g | None -> true) ->
-              let ok = c03_mon !e pre.st p post.st in
-              tally "mon_c03" ok;
-              if not ok then begin
-                incr fails;
-                if !fails <= 200 then
-                  Printf.printf "FAIL trace=%d step=%d line=%d comps=%s\n  op:   %s\n  pre:  %s|%s|%s|%s|%s\n  impl: %s\n  note: the state before already had inconsistent size bookkeeping; judged on the true sizes only\n"
-                    !trace !step !lineno "mon_c03" opline pre.raw_ents (s_of_n pre.st.cur) (s_of_n pre.st.maxs) (s_of_n pre.cap) (s_of_n pre.st.tb.nb)
-                    (if String.length line > 700 then String.sub line 0 700 ^ "..." else line)
-              end
-            | _ -> ());
+           (let fl = ref [] in
+            let chk0 name ok = tally name ok; if not ok then fl := name :: !fl in
+            let struct_ok (o : obs) = c04_nodup_mon o.st && (match o.graph with Some g -> ri_check g | None -> true) in
+            if not tainted.(slot) && post.res <> "panic" && inject = None && struct_ok post then begin
+              (* C01 is a statement about every state an operation returns with, whatever the state before: the bound on the counter
+                 and on the true sizes of the entries (for clone, `post` is the clone) *)
+              chk0 "mon_c01" (c01_mon !e post.st);
+              chk0 "mon_c01_cur" (Z.leq (z_of_n post.st.cur) (z_of_n post.st.maxs));
+              (match parse_op rest with
+               | Plain (p, _, _) when struct_ok pre -> chk0 "mon_c03" (c03_mon !e pre.st p post.st)
+               | _ -> ())
+            end;
+            if !fl <> [] then begin
+              incr fails;
+              if !fails <= 200 then
+                Printf.printf "FAIL trace=%d step=%d line=%d comps=%s\n  op:   %s\n  pre:  %s|%s|%s|%s|%s\n  impl: %s\n  note: the state before already had inconsistent size bookkeeping; judged by the absolute monitors only\n"
+                  !trace !step !lineno (String.concat "," (List.rev !fl)) opline pre.raw_ents (s_of_n pre.st.cur) (s_of_n pre.st.maxs) (s_of_n pre.cap) (s_of_n pre.st.tb.nb)
+                  (if String.length line > 700 then String.sub line 0 700 ^ "..." else line)
+            end);
            (* keep the history variables of the growth bound up to date all the same *)
            peaks.(slot) <- max peaks.(slot) (max (List.length pre.st.ents) (List.length post.st.ents));
            (match rest, post.res with
